@@ -402,3 +402,31 @@ orc_code_region_allocate_codemem (OrcCodeRegion *region)
 }
 #endif
 
+
+#ifdef ORC_VERIF_HOOKS
+/* Verification hook: read-only walk over all code regions and chunks, under
+ * the allocator's own lock.  cb gets: region index, write/exec base, region
+ * size, then per chunk offset, size, used flag and whether chunk->prev points
+ * at the chunk visited before it. */
+void
+orc_verif_codemem_walk (void (*cb) (void *user, int region, const void *write_ptr,
+      const void *exec_ptr, int region_size, int offset, int size, int used,
+      int prev_ok), void *user)
+{
+  int i;
+
+  orc_global_mutex_lock ();
+  for (i = 0; i < orc_code_n_regions; i++) {
+    OrcCodeRegion *region = orc_code_regions[i];
+    OrcCodeChunk *chunk, *prev = NULL;
+
+    for (chunk = region->chunks; chunk; chunk = chunk->next) {
+      cb (user, i, region->write_ptr, region->exec_ptr, region->size,
+          chunk->offset, chunk->size, chunk->used,
+          chunk->prev == prev && chunk->region == region);
+      prev = chunk;
+    }
+  }
+  orc_global_mutex_unlock ();
+}
+#endif
